@@ -616,7 +616,7 @@ def r12(cx, rec):
         for p, pf2 in C12.paths_of(f):
             recs = C12.record_events(f, p)
             ret = mirq.value_on_path(f, p, 0)
-            reqs = [C12.norm_idx(access_path(x[2][1])) for x in walk(ret) if x[0] == 'call' and x[1].endswith('req_data')]
+            reqs = [C12.norm_idx(access_path(x[2][1])) for x in walk(ret) if x[0] == 'call' and x[1] == C12.reqdata_builder(F).path]
             for r, rb in recs:
                 if r == 'None':
                     continue
